@@ -234,6 +234,15 @@ VotesVerdicts(r) ==
        (IF \E row \in RangeS(r.rows) : row.votes # Votes(sm, r.epoch, row.pk)
         THEN {V("C13", "a key's voting power is not the sum of its registered stakes with start <= epoch < end", "")} ELSE {})
   \cup (IF r.total # TotalVotes(sm, r.epoch) THEN {V("C13", "total voting power is not the sum of the stakes active in the epoch", "")} ELSE {})
+  \* the TIP-911 commitment of the same stake set
+  \cup (IF r.tip911.cur # TotalVotes(sm, r.epoch) \/ r.tip911.next # TotalVotes(sm, r.epoch + 1)
+        THEN {V("C13", "the TIP-911 stake commitment's totals are not the voting power of this and the next epoch", "")} ELSE {})
+  \cup (IF {x.tx : x \in RangeS(r.tip911.stakes)} # DOMAIN sm \/ Len(r.tip911.stakes) # Cardinality(DOMAIN sm)
+           \/ (\E x \in RangeS(r.tip911.stakes) : (x.tx \in DOMAIN sm /\ x.syms # sm[x.tx].syms))
+           \/ (\E i \in 1..(Len(r.tip911.stakes) - 1) : Gt(r.tip911.stakes[i].syms, r.tip911.stakes[i + 1].syms))
+        THEN {V("C13", "the TIP-911 stake commitment does not list exactly the registered stakes ordered by size", ""),
+              V("C07", "the TIP-911 stake commitment does not list exactly the registered stakes ordered by size", "")} ELSE {})
+  \cup (IF ~r.tip911.proofsOk THEN {V("C07", "a prefix of the TIP-911 stake list does not verify against the commitment's Merkle root", "")} ELSE {})
 
 \* ---- Merkle proofs (C07): rows [tree, kind, ok, n] tally what verify() returned ----------------------------------
 \* genuine proofs (presence, absence, typed accessors, roots) must verify; every tampering must not
